@@ -54,7 +54,9 @@ Min(a, b) == IF a < b THEN a ELSE b
 (* Calls: [op, i, n]  *)
 \* (WriteBatch / End exist only for stream steps: the generated class has no such methods for the others)
 CppWCalls == { [op |-> "write", i |-> i, n |-> 2] : i \in 0..(N - 1) } \cup
-             { [op |-> o, i |-> i, n |-> 2] : o \in {"wbatch", "end"}, i \in { j \in 0..(N - 1) : IsStream(j) } } \cup
+             { [op |-> "end", i |-> i, n |-> 2] : i \in { j \in 0..(N - 1) : IsStream(j) } } \cup
+             \* a batch may be empty: it writes nothing, but it is still a call on step i and subject to the step order
+             { [op |-> "wbatch", i |-> i, n |-> n] : i \in { j \in 0..(N - 1) : IsStream(j) }, n \in {0, 2} } \cup
              { [op |-> "close", i |-> 0, n |-> 0] }
 CppRCalls == { [op |-> "one", i |-> i, n |-> 0] : i \in 0..(N - 1) } \cup
              { [op |-> "batch", i |-> i, n |-> c] : i \in { j \in 0..(N - 1) : IsStream(j) }, c \in 1..3 } \cup { [op |-> "close", i |-> 0, n |-> 0] }
